@@ -175,8 +175,10 @@ class MoveMemrefDims(RewritePattern):
 
         def memref_op_outside_loop(memref_op: Operation | Block, index: int) -> bool:
             if isinstance(memref_op, Block):
-                # This happens when the dim is called on an input argument
-                return True
+                # This happens when the dim is called on a block argument: an input argument is available
+                # in front of the loop, an argument of the loop itself (or of a block inside it) is not
+                block_owner = memref_op.parent_op()
+                return block_owner is None or (block_owner is not find_parent_for_loop(dim_op) and before_loop(block_owner))
             if isinstance(memref_op, memref.SubviewOp):
                 if memref_op.result.type.get_num_dims() != len(memref_op.static_sizes.get_values()):
                     # rank-reducing subview: dimension `index` of the result is not entry `index` of the sizes
